@@ -399,6 +399,11 @@ func TempDirWithFiles(files map[string]string) string {
 // RemoveTempDir removes a directory made by TempDirWithFiles (native only).
 func RemoveTempDir(dir string) { os.RemoveAll(dir) }
 
+// SchedPreemptBeforeChanOps adds a preemption point right before every channel
+// operation (besides the one after it), so that another task can run between
+// an observation such as len(ch) and the send or receive that relies on it.
+func SchedPreemptBeforeChanOps(on bool) {}
+
 // RaceDetect turns on the engine's happens-before race detector for the rest
 // of the path: two conflicting accesses to an interpreted heap cell or Go map
 // by different tasks that are not ordered by the modelled synchronisation are
